@@ -582,7 +582,7 @@ func twinOpt(t []string, x bool, mk *marks) core.Result {
 		werrA = reqA.Write(&outA)
 		werrB = reqB.Write(&outB)
 		hA, hB = headOfReq(reqA, false), headOfReq(reqB, false)
-		hA.trailer, hB.trailer = msggen.SortedKV(reqA.Trailer), msggen.SortedKV(reqB.Trailer)
+		hA.trailer, hB.trailer = trailerKV(reqA.Trailer), trailerKV(reqB.Trailer)
 		if reqA.Close != reqB.Close || !reflect.DeepEqual(reqA.Header, reqB.Header) {
 			hA.line += " [close/header differ]"
 		}
@@ -602,7 +602,7 @@ func twinOpt(t []string, x bool, mk *marks) core.Result {
 		werrA = resA.Write(&outA)
 		werrB = resB.Write(&outB)
 		hA, hB = headOfRes(resA, false), headOfRes(resB, false)
-		hA.trailer, hB.trailer = msggen.SortedKV(resA.Trailer), msggen.SortedKV(resB.Trailer)
+		hA.trailer, hB.trailer = trailerKV(resA.Trailer), trailerKV(resB.Trailer)
 		if resA.Close != resB.Close || !reflect.DeepEqual(resA.Header, resB.Header) {
 			hA.line += " [close/header differ]"
 		}
@@ -665,6 +665,23 @@ func twinOpt(t []string, x bool, mk *marks) core.Result {
 	return core.Result{Impl: impl}
 }
 
+// trailerKV is the Trailer map for comparison: the fields that were sent, and - marked - the names that
+// were only ANNOUNCED (a key without values: net/http writes the `Trailer:` announcement from the keys).
+func trailerKV(h http.Header) []msggen.KV {
+	out := msggen.SortedKV(h)
+	var ks []string
+	for k, vs := range h {
+		if len(vs) == 0 {
+			ks = append(ks, k)
+		}
+	}
+	sort.Strings(ks)
+	for _, k := range ks {
+		out = append(out, msggen.KV{K: k, V: "<announced, not sent>"})
+	}
+	return out
+}
+
 // headerValuesDiff compares two header maps as per-name ORDERED value lists (the order of the lines
 // of one field name is part of the message; a name present with no values differs from an absent one
 // only in the map, not on the wire, and is not reported).
@@ -700,19 +717,36 @@ func forwardedDiff(isReq bool, outA, outB []byte, werrA, werrB error) string {
 	if bytes.Equal(outA, outB) {
 		return ""
 	}
+	announced := func(t http.Header) []string {
+		var ks []string
+		for k := range t {
+			ks = append(ks, k)
+		}
+		sort.Strings(ks)
+		return ks
+	}
 	parse := func(b []byte) (head, http.Header, string) {
 		if isReq {
 			r, err := http.ReadRequest(bufio.NewReader(bytes.NewReader(b)))
 			if err != nil {
 				return head{}, nil, err.Error()
 			}
-			return headOfReq(r, true), r.Header, ""
+			// the `Trailer:` announcement of the forwarded head (the parser moves it out of the header map)
+			ann := announced(r.Trailer)
+			h := headOfReq(r, true)
+			hdr := r.Header.Clone()
+			hdr["<Trailer announcement>"] = ann
+			return h, hdr, ""
 		}
 		r, err := http.ReadResponse(bufio.NewReader(bytes.NewReader(b)), msggen.DummyReq())
 		if err != nil {
 			return head{}, nil, err.Error()
 		}
-		return headOfRes(r, true), r.Header, ""
+		ann := announced(r.Trailer)
+		h := headOfRes(r, true)
+		hdr := r.Header.Clone()
+		hdr["<Trailer announcement>"] = ann
+		return h, hdr, ""
 	}
 	hA, rawA, eA := parse(outA)
 	hB, rawB, eB := parse(outB)
